@@ -538,8 +538,8 @@ func plain(v reflect.Value, onPath map[uintptr]bool, depth int, path string) str
 	return path + ": " + t.String()
 }
 
-func Concrete(n int) int       { return n }
-func IsSymbolic(v any) bool    { return false }
+func Concrete(n int) int    { return n }
+func IsSymbolic(v any) bool { return false }
 
 // RunReplay runs a harness natively on the inputs of VERIF_REPLAY and prints
 // the outcome lines parsed by `gosym replay`.
